@@ -8,7 +8,7 @@
    DESIGN.md. *)
 From stdpp Require Import base list option numbers.
 From Incr.Model Require Import Base Live Engine Api.
-From Incr.Proofs Require Import Pres Safe RchInv FrameRchInv FrameNoHeapPanic Histories.
+From Incr.Proofs Require Import Pres Safe RchInv FrameRchInv FrameNoHeapPanic RchMin FrameRchMin Histories.
 
 (* [rch_inv s]: a node occurs in queue h of the recompute heap exactly when its
    height_in_recompute_heap cell says h (so a cell of -1 means "in no queue"), and no queue lists a
@@ -38,6 +38,19 @@ Theorem C11_recompute_heap_consistent_in_every_history :
   forall fuel max_height ops, Forall (fun e => rch_inv e.2) (run_history fuel max_height true ops).
 Proof. exact history_rch_inv. Qed.
 
+(* [rch_extra s]: the heap's length counter equals the number of queued nodes, and every queue below its
+   lower bound (`height_lower_bound`) is empty.  Together with rch_inv it holds in every state of every
+   history of a debug build, from any state that satisfies both *)
+Theorem C11_heap_counter_and_lower_bound_along_every_history :
+  forall fuel ops st s, debug s = true -> rch_inv s -> rch_extra s ->
+    Forall (fun e => rch_inv e.2 /\ rch_extra e.2 /\ debug e.2 = true) (run fuel ops st s).
+Proof. exact run_rch_extra. Qed.
+
+Theorem C11_heap_counter_and_lower_bound_in_every_history :
+  forall fuel max_height ops,
+    Forall (fun e => rch_inv e.2 /\ rch_extra e.2) (run_history fuel max_height true ops).
+Proof. exact history_rch_extra. Qed.
+
 (* non-vacuity: a history that inserts, removes, pops and re-heights heap entries, one op panicking *)
 Example C11_nonvacuous :
   let h := [OpVar 1; OpMap 2 [] [0%nat]; OpMap 2 [EPanic] [1%nat]; OpObserve 1; OpStabilise; OpSet 0 3; OpObserve 2;
@@ -51,3 +64,5 @@ Print Assumptions C11_heap_operations_keep_the_heap_consistent.
 Print Assumptions C11_recompute_heap_consistent_along_every_history.
 Print Assumptions C11_fresh_state_is_consistent.
 Print Assumptions C11_recompute_heap_consistent_in_every_history.
+Print Assumptions C11_heap_counter_and_lower_bound_along_every_history.
+Print Assumptions C11_heap_counter_and_lower_bound_in_every_history.
